@@ -116,9 +116,51 @@ def symbolic_seq(ex, it, line):
     raise Unsupported(f"iteration over {it!r}")
 
 
-def run_for(ex, s, env):
-    k0 = ordinal(ex.fn, s)
-    spec0 = ex.contract.get("loops", {}).get(k0)
+def comp_ordinal(fn, e):
+    out = [n for n in ast.walk(fn) if isinstance(n, (ast.ListComp, ast.GeneratorExp))]
+    out.sort(key=lambda n: (n.lineno, n.col_offset))
+    for i, n in enumerate(out):
+        if n is e:
+            return i
+    return -1
+
+
+def run_comprehension(ex, e, env):
+    """A list comprehension / generator expression with a sidecar invariant (contract key
+    "comps": {ordinal: {...}}, ordinals by source position): run as the loop it abbreviates,
+
+        _out = [];  for <target> in <iter>: if <ifs>: _out.append(<elt>)
+
+    under the loop rule; the invariants may mention `_out` next to `_done` / `_rest` / `_i`, the
+    step hints also `_elt` and `_out0` (element just appended, list before the append).
+    Returns None when the contract has no entry for this comprehension."""
+    k = comp_ordinal(ex.fn, e)
+    spec = ex.contract.get("comps", {}).get(k)
+    if spec is None or len(e.generators) != 1:
+        return None
+    g = e.generators[0]
+    # step hints may mention `_elt` (the element just appended) and `_out0` (the list before it)
+    stmts = [ast.Assign([ast.Name("_elt", ast.Store())], e.elt),
+             ast.Assign([ast.Name("_out0", ast.Store())],
+                        ast.Call(ast.Name("list", ast.Load()), [ast.Name("_out", ast.Load())], [])),
+             ast.Expr(ast.Call(ast.Attribute(ast.Name("_out", ast.Load()), "append", ast.Load()),
+                               [ast.Name("_elt", ast.Load())], []))]
+    for c in reversed(g.ifs):
+        stmts = [ast.If(c, stmts, [])]
+    loop = ast.For(g.target, g.iter, stmts, [], None)
+    for n in ast.walk(loop):
+        if not hasattr(n, "lineno"):
+            n.lineno = e.lineno
+            n.col_offset = e.col_offset
+    env2 = dict(env)
+    env2["_out"] = Z(ex.S.nil, fresh="shallow", origin="comprehension")
+    run_for(ex, loop, env2, spec=spec, label=f"comp{k}")
+    return env2["_out"]
+
+
+def run_for(ex, s, env, spec=None, label=None):
+    k0 = ordinal(ex.fn, s) if spec is None else label
+    spec0 = ex.contract.get("loops", {}).get(k0) if spec is None else spec
     if spec0 is not None and "abstract" in spec0:
         # ASSUMED abstraction of a loop the engine cannot follow (listed in the evidence): the
         # loop only (re)computes the named local values and raises nothing
@@ -146,8 +188,8 @@ def run_for(ex, s, env):
         ex.run_block(s.orelse, env)
         return
     # symbolic: invariant cut
-    k = ordinal(ex.fn, s)
-    spec = ex.contract.get("loops", {}).get(k)
+    k = ordinal(ex.fn, s) if spec is None else label
+    spec = ex.contract.get("loops", {}).get(k) if spec is None else spec
     if spec is None:
         raise Unsupported(f"loop #{k} (line {s.lineno}) over a symbolic sequence has no invariant")
     S = ex.S
